@@ -1,4 +1,5 @@
 import PyxModel.Extract.Edit
+import Gen.XsdCore
 
 /-
   C20 — `xsd`: the XML tree `bridgepoint.gen_xsd_schema.build_schema(m, c_c)` must return for a
@@ -49,21 +50,21 @@ structure XsdSpec where
   classes : List XClass
   deriving DecidableEq, Repr, Inhabited
 
-/-- `build_core_type`: the xs: base of a core type, selected by its name; void and every other core
-    type (state<State_Model>, inst_ref<Object>, …) are not declared -/
+/-- `build_core_type`: the xs: base of a core type, selected by its name from the if/elif chain of the source
+    (`Gen.XsdCore.table`, regenerated from bridgepoint/gen_xsd_schema.py on every run); void and every name that
+    is not listed (state<State_Model>, inst_ref<Object>, …) are not declared -/
 def coreXs (name : String) : Option String :=
-  if name == "boolean" then some "xs:boolean"
-  else if name == "integer" then some "xs:integer"
-  else if name == "real" then some "xs:decimal"
-  else if name == "string" then some "xs:string"
-  else if name == "unique_id" then some "xs:integer"
-  else none
+  match Gen.XsdCore.table.find? (fun p => p.1 == name) with
+  | some p => p.2
+  | none => none
 
-/-- `get_type_name(s_dt)`: the name, for core types 1..5, enumerations and user types -/
+/-- `get_type_name(s_dt)`: the name, for core types 1..5, enumerations and user types; an EMPTY name counts as no
+    name for every caller -/
 def typeNameOf (dts : List DataType) (id : Nat) : Option String :=
   match findDt dts id with
   | none => none
   | some t =>
+    if t.name == "" then none else      -- every caller tests the name for truthiness (`if base_name:`, `if type_name and …`)
     match t.kind with
     | .core n => if 1 ≤ n ∧ n ≤ 5 then some t.name else none
     | .enum _ => some t.name
@@ -88,8 +89,8 @@ def baseTypeFuel (dts : List DataType) : Nat → Nat → Option String
     | some t =>
       match t.kind with
       | .user b => baseTypeFuel dts f b
-      | .core n => if 1 ≤ n ∧ n ≤ 5 then some t.name else none
-      | .enum _ => some t.name
+      | .core n => if 1 ≤ n ∧ n ≤ 5 ∧ t.name ≠ "" then some t.name else none
+      | .enum _ => if t.name = "" then none else some t.name      -- `if type_name and …`: an empty name is falsy
       | .other => none
 
 def baseTypeName (dts : List DataType) (id : Nat) : Option String := baseTypeFuel dts (dts.length + 1) id
